@@ -17,7 +17,7 @@ func CompileGlobs(globs []string) (*regexp.Regexp, error) {
 	// \] -> \?
 
 	var pattern strings.Builder
-	pattern.WriteString("^(?:")
+	pattern.WriteString("(?s)^(?:")
 	for i, g := range globs {
 		if i > 0 {
 			pattern.WriteRune('|')
